@@ -140,6 +140,185 @@ class TupleHolder(pg.Object):
 TUPLE_ITEM_CLASSES = ('Any2', 'Writable', 'Notifier')
 
 
+class SubDict(pg.Dict):
+  """A user subclass of pg.Dict without behaviour of its own."""
+
+
+class SubList(pg.List):
+  """A user subclass of pg.List without behaviour of its own."""
+
+
+def wrap_subclass(rng, label, v):
+  """Puts v below / beside user subclasses of pg.Dict / pg.List (as the root of
+  the clone, inside an untyped container, in an object field)."""
+  w = rng.random()
+  if w < 0.3:
+    return f'SubDict(n={label}, k=1)', SubDict(n=v, k=1)
+  if w < 0.5:
+    return f'SubList([{label}, 2])', SubList([v, 2])
+  if w < 0.65:
+    return f'pg.Dict(s=SubDict(a={label}), k=1)', pg.Dict(s=SubDict(a=v), k=1)
+  if w < 0.8:
+    return f'pg.List([SubList([{label}]), SubDict(b=1)])', pg.List([SubList([v]), SubDict(b=1)])
+  if w < 0.9:
+    return f'Any2(x=SubDict(a={label}))', M.Any2(x=SubDict(a=v))
+  return f'SubDict(l=SubList([{label}]))', SubDict(l=SubList([v]))
+
+
+# User transforms of value specs (documented: "user-defined function to be
+# called on the input of `apply`; could be used as a type converter or a custom
+# validator"): normalisers whose output is a fixed point and converters whose
+# output is not.  Guarded by type: other values pass unchanged.
+
+def _is_int(v):
+  return isinstance(v, int) and not isinstance(v, bool)
+
+
+def tr_inc(v):
+  return v + 1 if _is_int(v) else v
+
+
+def tr_double(v):
+  return v * 2 if _is_int(v) else v
+
+
+def tr_bang(v):
+  return v + '!' if isinstance(v, str) else v
+
+
+def tr_abs(v):
+  return abs(v) if _is_int(v) else v
+
+
+def tr_strip(v):
+  return v.strip() if isinstance(v, str) else v
+
+
+def tr_append0(v):
+  return list(v) + [0] if isinstance(v, list) else v
+
+
+def tr_count(v):
+  return dict(v, n=v.get('n', 0) + 1) if isinstance(v, dict) else v
+
+
+def tr_same(v):
+  return v
+
+
+ELEMENT_TRANSFORMS = [('inc', tr_inc), ('double', tr_double), ('bang', tr_bang),
+                      ('abs', tr_abs), ('strip', tr_strip)]
+
+
+class Transformed(pg.Object):
+  """Object whose fields carry user transforms."""
+  inc: T.Any(transform=tr_inc) = 0
+  dbl: T.Any(transform=tr_double) = 1
+  bang: T.Any(transform=tr_bang) = ''
+  absv: T.Any(transform=tr_abs) = 0
+  strip: T.Any(transform=tr_strip) = ''
+  lst: T.List(T.Int(), transform=tr_append0, max_size=40) = []
+  dct: T.Dict([('n', T.Int(default=0))], transform=tr_count) = {}
+  sub: T.Object(M.Inner, transform=tr_same).noneable() = None
+  x: T.Any() = None
+
+
+def transformed_kwargs(rng):
+  kw = {}
+  pool = {'inc': lambda: rng.randint(-3, 9), 'dbl': lambda: rng.randint(-3, 9),
+          'bang': lambda: rng.choice(['a', 'b!', '']), 'absv': lambda: rng.randint(-9, 9),
+          'strip': lambda: rng.choice([' a ', 'b', '  ']),
+          'lst': lambda: [rng.randint(0, 5) for _ in range(rng.randint(0, 2))],
+          'dct': lambda: rng.choice([{}, {'n': 2}]),
+          'sub': lambda: V.object_of(M.Inner, rng),
+          'x': lambda: D.build(D.gen(rng, 1, classes=TUPLE_ITEM_CLASSES))}
+  for k in rng.sample(sorted(pool), rng.randint(1, 5)):
+    kw[k] = pool[k]()
+  return kw
+
+
+def transform_value(rng):
+  """(label, value, kind of the node whose value spec carries the transforms):
+  an object with transform fields, a typed list whose element spec (or own
+  spec) has a transform, a typed dict with transform fields; as the root of the
+  clone or inside an untyped container / an Any field."""
+  w = rng.random()
+  if w < 0.5:
+    holder = 'Object'
+    kw = transformed_kwargs(rng)
+    v = Transformed(**kw)
+    label = 'Transformed(%s)' % ', '.join(f'{k}={x!r:.60}' for k, x in kw.items())
+    if rng.random() < 0.25:
+      label, v = f'Transformed(x={label})', Transformed(x=v)
+  elif w < 0.8:
+    holder = 'List'
+    if rng.random() < 0.75:
+      name, fn = rng.choice(ELEMENT_TRANSFORMS)
+      spec, sname = T.List(T.Any(transform=fn), max_size=12), f'List(Any(transform={name}))'
+      items = [rng.choice([rng.randint(-3, 9), rng.choice(['a', ' b', 'c!'])])
+               for _ in range(rng.randint(1, 4))]
+    else:
+      spec, sname = T.List(T.Int(), transform=tr_append0, max_size=40), 'List(Int, transform=append0)'
+      items = [rng.randint(0, 5) for _ in range(rng.randint(0, 3))]
+    v = pg.List(items, value_spec=spec)
+    label = f'pg.List({items!r}, value_spec={sname})'
+  else:
+    holder = 'Dict'
+    spec = T.Dict([('a', T.Any(transform=tr_inc)), ('s', T.Any(transform=tr_bang, default='')),
+                   ('m', T.Any(transform=tr_abs, default=0)),
+                   ('l', T.List(T.Int(), transform=tr_append0, max_size=40, default=[]))])
+    content = {'a': rng.randint(0, 9)}
+    if rng.random() < 0.5:
+      content['s'] = rng.choice(['a', 'b!'])
+    if rng.random() < 0.5:
+      content['l'] = [rng.randint(0, 3)]
+    v = pg.Dict(content, value_spec=spec)
+    label = f'pg.Dict({content!r}, value_spec=Dict(a=Any(transform=inc), s=Any(transform=bang), ...))'
+  w = rng.random()
+  if w < 0.45:
+    return label, v, holder
+  if w < 0.65:
+    return f'pg.Dict(n={label}, k=1)', pg.Dict(n=v, k=1), holder
+  if w < 0.8:
+    return f'pg.List([{label}, 2])', pg.List([v, 2]), holder
+  return f'Any2(x={label})', M.Any2(x=v), holder
+
+
+def flag_history(rng, nodes, p_acc=0.3, p_seal=0.3, p_more=0.3):
+  """Flags set through the public API before cloning: one node gets the
+  accessor flag, one is sealed (seal is recursive), and sometimes 1-3 further
+  calls of seal(True) / seal(False) / set_accessor_writable on nodes of the
+  value in any order - so that a node's own flags may differ from those of its
+  parent (a sealed value with one part re-opened, ...).  Returns a label."""
+  out = ''
+  where = lambda n: str(n.sym_path) or '<root>'
+  if rng.random() < p_acc:
+    n = rng.choice(nodes)
+    n.set_accessor_writable(rng.random() < 0.5)
+    out += '+accflag'
+  if rng.random() < p_seal:
+    rng.choice(nodes).seal()
+    out += '+sealed'
+  if rng.random() < p_more:
+    for _ in range(rng.randint(1, 3)):
+      n = rng.choice(nodes)
+      q = rng.random()
+      if q < 0.45:
+        below = [m for m in nodes if m.sym_parent is not None and m.sym_parent.is_sealed]
+        if below and rng.random() < 0.7:
+          n = rng.choice(below)
+        n.seal(False)
+        out += f'+seal(False)@{where(n)}'
+      elif q < 0.7:
+        n.seal()
+        out += f'+seal()@{where(n)}'
+      else:
+        b = rng.random() < 0.5
+        n.set_accessor_writable(b)
+        out += f'+set_accessor_writable({b})@{where(n)}'
+  return out
+
+
 def tuple_value(rng, depth=2):
   """(printable, tuple) holding symbolic nodes, plain lists / dicts (which may
   hold symbolic nodes again), Leaf objects, frozensets of Leaf objects, nested
@@ -275,11 +454,17 @@ def typed_container(rng):
   return 'pg.List([1], value_spec=List(Int))', pg.List([1], value_spec=T.List(T.Int()))
 
 
-def make_value(rng):
-  """Returns (label, value)."""
+def make_value(rng, tags=None):
+  """Returns (label, value); tags (a dict) receives harness facts about the
+  value that select mechanism keys / monitors."""
+  tags = tags if tags is not None else {}
   r = rng.random()
   if r < 0.12:
-    return special_value(rng)
+    label, v = special_value(rng)
+    # behavioural flags of DNA / DNASpec / hyper values / functors
+    nodes = [n for n, _ in TM.nodes_of(v) if not isinstance(n, pg.Ref)]
+    label += flag_history(rng, nodes, p_acc=0.35, p_seal=0.15, p_more=0.1)
+    return label, v
   if r < 0.2:
     q = rng.random()
     if q < 0.35:
@@ -295,11 +480,15 @@ def make_value(rng):
     label, v = typed_container(rng)
   elif r < 0.39:
     label, v = tuple_holder(rng)
+  elif r < 0.45:
+    label, v, tags['transform'] = transform_value(rng)
   else:
     descs, forest = H.make_forest(rng, n_roots=1, typed=rng.random() < 0.6, depth=3,
                                   classes=('Any2', 'Writable', 'Notifier', 'Bound', 'NoSymCmp'))
     v = forest[0]
     label = D.show(descs[0])
+  if rng.random() < 0.08:
+    label, v = wrap_subclass(rng, label, v)
   nodes = [n for n, _ in TM.nodes_of(v) if not isinstance(n, pg.Ref)]
   if rng.random() < 0.3:
     label += inject_tuples(rng, nodes)
@@ -317,13 +506,7 @@ def make_value(rng):
           tgt.append(pg.Ref(ext.shared))
           tgt.append(M.Leaf(7))
       label += '+ref+leaf'
-  if rng.random() < 0.3:
-    n = rng.choice(nodes)
-    n.set_accessor_writable(rng.random() < 0.5)
-    label += '+accflag'
-  if rng.random() < 0.3:
-    rng.choice(nodes).seal()
-    label += '+sealed'
+  label += flag_history(rng, nodes)
   return label, v
 
 
@@ -429,7 +612,8 @@ def scope_tag(ctx, fname, x, orig, top_pos):
   the scope that overrides this very flag with a value different from the
   node's own one, or 'other-scope'."""
   scopes = getattr(ctx, 'clone_scopes', None)
-  if not scopes:
+  if not scopes or kind(x) not in ('List', 'Dict', 'Object'):
+    # (the position is about where a container gets its schema binding from)
     return ''
   name = SCOPE_OF_FLAG[fname]
   which = f'{name}-scope' if name in scopes and scopes[name] != orig else 'other-scope'
@@ -451,8 +635,16 @@ def compare_nodes(ctx, a, c, deep, via, label, witness, ids_a=None, top_pos='roo
   for (x, keys), (y, _) in zip(an, cn):
     cnt['identity_nodes_compared'] += 1
     if type(x) is not type(y):
-      ctx.violation('class-differs', f'{mode}/{kind(x)}{sfx}',
-                    f'{label} via {via} at {keys}: {type(x).__name__} vs {type(y).__name__}', witness)
+      if type(x) in (SubDict, SubList):
+        # (one mechanism per base class: the harness knows the node is an
+        # instance of a user subclass of pg.Dict / pg.List)
+        ctx.violation('class-differs', f'{kind(x)}-subclass',
+                      f'{label} via {via} ({mode}) at {keys}: {type(x).__name__} vs '
+                      f'{type(y).__name__}', witness)
+      else:
+        ctx.violation('class-differs', f'{mode}/{kind(x)}{sfx}',
+                      f'{label} via {via} at {keys}: {type(x).__name__} vs {type(y).__name__}',
+                      witness)
       continue
     if id(y) in ids_a:
       ctx.violation('shares-node', f'{mode}/{kind(x)}{sfx}',
@@ -468,8 +660,13 @@ def compare_nodes(ctx, a, c, deep, via, label, witness, ids_a=None, top_pos='roo
       if getattr(ctx, 'clone_scopes', None):
         cnt['scope_flag_nodes_compared'] += 1
       if get(x) != get(y):
-        ctx.violation('flag-differs',
-                      f'{fname}/{kind(x)}{scope_tag(ctx, fname, x, get(x), top_pos)}',
+        if (fname == 'is_sealed' and not x.is_sealed and x.sym_parent is not None
+            and x.sym_parent.is_sealed):
+          # a part re-opened with seal(False) inside a sealed value
+          mech = 'is_sealed@unsealed-below-sealed'
+        else:
+          mech = f'{fname}/{kind(x)}{scope_tag(ctx, fname, x, get(x), top_pos)}'
+        ctx.violation('flag-differs', mech,
                       f'{label} via {via} ({mode}) at {keys}: {fname} {get(x)} -> {get(y)}',
                       witness)
     if isinstance(x, (pg.Dict, pg.List)):
@@ -541,7 +738,7 @@ CLONE_SCOPES = [
 ]
 
 
-def clone_in_scopes(rng, fn, a):
+def clone_in_scopes(rng, fn, a, forced=()):
   """Clones inside 0-2 scoped overrides; the scope governs what may be done
   while it is active, it is not a property of the values created in it, so the
   clone's own flags (read after leaving the scopes) must be those of the
@@ -551,6 +748,7 @@ def clone_in_scopes(rng, fn, a):
   if rng.random() < 0.4:
     for name, cm, vals in rng.sample(CLONE_SCOPES, rng.randint(1, 2)):
       chosen.append((name, cm, rng.choice(vals)))
+  chosen.extend(forced)
   blocking = any((n, v) in (('as_sealed', True), ('allow_writable_accessors', False))
                  for n, _, v in chosen)
   with contextlib.ExitStack() as st:
@@ -865,7 +1063,8 @@ def plain_step(rng, y):
 def run_case(ctx, i):
   rng = ctx.rng
   c = ctx.counters
-  label, a = make_value(rng)
+  tags = {}
+  label, a = make_value(rng, tags)
   witness = {'value': label[:600]}
   ka = kind(a)
   model_a = None
@@ -893,10 +1092,21 @@ def run_case(ctx, i):
     via, fn = rng.choice(vias)
     ctx.label = f'{"deep" if deep else "shallow"}-{via}'
     scopes, ctx.clone_scopes = '', None
+    # A functor is sometimes cloned while pg.auto_call_functors is in force:
+    # the scope says what `fn(...)` written by the user means (call at once),
+    # a clone of an existing functor is a functor all the same.
+    auto_call = ka == 'Functor' and rng.random() < 0.3
+    forced = [('auto_call_functors', pg.auto_call_functors, True)] if auto_call else []
     try:
-      b, scopes, ctx.clone_scopes = clone_in_scopes(rng, fn, a)
+      b, scopes, ctx.clone_scopes = clone_in_scopes(rng, fn, a, forced)
     except (pg.WritePermissionError, ValueError, TypeError) as e:
       ctx.label = None
+      if auto_call and not getattr(e, 'pgverif_blocking_scope', False):
+        c['clones_inside_auto_call_scope'] += 1
+        ctx.violation('clone-in-scope', 'auto_call_functors/Functor',
+                      f'{label} via {via} inside pg.auto_call_functors(True): '
+                      f'{type(e).__name__}: {e!s:.300}', witness)
+        continue
       if getattr(e, 'pgverif_blocking_scope', False):
         # Whether a copy may be *constructed* while pg.as_sealed(True) /
         # pg.allow_writable_accessors(False) (write refused) or
@@ -908,10 +1118,23 @@ def run_case(ctx, i):
       continue
     except Exception as e:  # pylint: disable=broad-except
       ctx.label = None
+      if auto_call:
+        c['clones_inside_auto_call_scope'] += 1
+        ctx.violation('clone-in-scope', 'auto_call_functors/Functor',
+                      f'{label} via {via} inside pg.auto_call_functors(True): '
+                      f'{type(e).__name__}: {e!s:.300}', witness)
+        continue
       ctx.violation('clone-raised', f'{"deep" if deep else "shallow"}/{kind(a)}',
                     f'{label} via {via}: {type(e).__name__}: {e!s:.300}', witness)
       continue
     ctx.label = None
+    if auto_call:
+      c['clones_inside_auto_call_scope'] += 1
+      if type(b) is not type(a):
+        ctx.violation('clone-in-scope', 'auto_call_functors/Functor',
+                      f'{label} via {via} inside pg.auto_call_functors(True): the clone is '
+                      f'{b!r:.200}', witness)
+        continue
     c['clones_checked'] += 1
     if primed:
       c['primed_clones'] += 1
@@ -926,8 +1149,14 @@ def run_case(ctx, i):
                and not pg.ne(a.children, b.children))
     else:
       equal = pg.eq(a, b) and not pg.ne(a, b)
+    if tags.get('transform'):
+      c['clones_of_values_with_user_transforms'] += 1
     if not equal:
-      ctx.violation('not-equal', f'{mode}/{kind(a)}', f'{label} via {via}: clone differs: '
+      # (a value whose specs carry user transforms: one mechanism per kind of
+      # node that owns those specs, known by construction)
+      mech = (f'user-transform/{tags["transform"]}' if tags.get('transform')
+              else f'{mode}/{kind(a)}')
+      ctx.violation('not-equal', mech, f'{label} via {via} ({mode}): clone differs: '
                     f'{js(b)[:300]} vs {snap_a[:300]}', witness)
     if js(a) != snap_a or (state_a is not None and state_obs(a) != state_a):
       ctx.violation('original-changed', f'{mode}/{kind(a)}', f'{label} via {via}', witness)
@@ -959,7 +1188,9 @@ def run_case(ctx, i):
     getter_identity(ctx, a, b, deep, via, label, witness)
     for clause, detail in TM.tree_ok([b]):
       ctx.violation('clone-tree-' + clause, f'{mode}/{kind(a)}', f'{label} via {via}: {detail}', witness)
-    if deep:
+    if deep and not tags.get('transform'):
+      # (schema_ok re-applies the specs to detached copies and expects a fixed
+      # point, which a user transform need not have)
       for clause, detail in SM.schema_ok([b], tolerate_partial=False):
         ctx.violation('clone-schema-' + clause, f'{mode}/{kind(a)}', f'{label} via {via}: {detail}', witness)
     clones.append((mode, via, b))
@@ -1050,7 +1281,9 @@ def run_case(ctx, i):
     if H.total_size(forest) > 250:
       break
   # the getters of the untouched side against a fresh computation on a copy of it
-  if ka in ('List', 'Dict', 'Object'):
+  if ka in ('List', 'Dict', 'Object') and not tags.get('transform'):
+    # (the fresh computation rebuilds the value through its constructors,
+    # which runs user transforms again)
     ctx.label = 'derived-fresh-check'
     stale = DV.check([x], c)
     ctx.label = None
